@@ -184,6 +184,13 @@ def recipes():
     add('FCSData.copy()', S, lambda d, k: (dict(data=d), lambda a: a['data'].copy()), kind='produce')
     add('FCSData.view()', S, lambda d, k: (dict(data=d), lambda a: a['data'].view()), kind='view')
     add('FCSData.astype(float)', S, lambda d, k: (dict(data=d), lambda a: a['data'].astype(np.float64)), kind='produce')
+    # samples produced by arithmetic and NumPy functions on a sample
+    add('FCSData * 2.0', S, lambda d, k: (dict(data=d), lambda a: a['data'] * 2.0), kind='produce')
+    add('FCSData + 1', S, lambda d, k: (dict(data=d), lambda a: a['data'] + 1), kind='produce')
+    add('np.sqrt(FCSData)', S, lambda d, k: (dict(data=d), lambda a: np.sqrt(np.abs(a['data']))), kind='produce')
+    add('np.log10(FCSData + 1.0)', S, lambda d, k: (dict(data=d), lambda a: np.log10(np.abs(a['data']) + 1.0)), kind='produce')
+    add('np.maximum(FCSData, 10)', S, lambda d, k: (dict(data=d), lambda a: np.maximum(a['data'], 10)), kind='produce')
+    add('FCSData - FCSData', S, lambda d, k: (dict(data=d), lambda a: a['data'] - a['data']), kind='produce')
 
     # --- io functions on files / buffers
     def b_file(d, k):
@@ -359,6 +366,8 @@ def recipes():
                 lambda a: FlowCal.plot.density_and_hist(a['data'], a['gated'], a['contour'], density_channels=a['dch'], density_params=a['dparams'],
                                                         hist_channels=a['hch'], hist_params=a['hparams']))
     add('plot.density_and_hist', S, b_dh, plot=True, cheap=False)
+    add('plot.density_and_hist(empty params)', S, lambda d, k: (dict(data=d, dch=['FSC-H', 'SSC-H'], dparams={}, hch=['FL1-H'], hparams={}),
+                                                              lambda a: FlowCal.plot.density_and_hist(a['data'], density_channels=a['dch'], density_params=a['dparams'], hist_channels=a['hch'], hist_params=a['hparams'])), plot=True, cheap=False)
     add('plot.density_and_hist(list params)', S, lambda d, k: (dict(data=d, dch=['FSC-H', 'SSC-H'], dparams={'bins': [16, 16], 'sigma': 1.0}, hch=['FL1-H', 'FL2-H'], hparams=[{'xscale': 'log'}, {'xscale': 'logicle', 'bins': 30}]),
                                                              lambda a: FlowCal.plot.density_and_hist(a['data'], density_channels=a['dch'], density_params=a['dparams'], hist_channels=a['hch'], hist_params=a['hparams'])), plot=True, cheap=False)
     add('plot.violin', ALL, lambda d, k: (dict(data=[d[:, ch(k)] if k != 'array' else d[:, 2], (d[::2, ch(k)] if k != 'array' else d[::2, 2])], positions=[1.0, 2.0], vk={'facecolor': 'gray'}),
